@@ -178,7 +178,7 @@ class _Gen:
                     self.j['blocks'][b]['term'] = {'k': 'call', 'func': {'path': clo.path, 'full': clo.path, 'name': 'call', 'gargs': []},
                                                    'args': [{'move': {'l': env, 'p': []}}, {'move': {'l': e, 'p': []}}],
                                                    'dest': {'l': y, 'p': []}, 'target': nxt, 'unwind': None}
-                    self.to_inline.append((b, clo))
+                    self.to_inline.append((b, clo, cloc))
                     cont(nxt, y, clo.j.get('ret_ty') or 'unknown')
                 else:
                     er = self.new_local('&' + ety)
@@ -187,7 +187,7 @@ class _Gen:
                     self.j['blocks'][b]['term'] = {'k': 'call', 'func': {'path': clo.path, 'full': clo.path, 'name': 'call', 'gargs': []},
                                                    'args': [{'move': {'l': env, 'p': []}}, {'move': {'l': er, 'p': []}}],
                                                    'dest': {'l': r, 'p': []}, 'target': nxt, 'unwind': None}
-                    self.to_inline.append((b, clo))
+                    self.to_inline.append((b, clo, cloc))
                     keep = self.new_block(span)
                     self.j['blocks'][nxt]['term'] = {'k': 'switch', 'discr': {'move': {'l': r, 'p': []}}, 'targets': [['0', restart[0]]], 'otherwise': keep}
                     cont(keep, e, ety)
@@ -304,8 +304,8 @@ def expand_lazy_iterators(body, crate, max_rounds=6):
             g.j['blocks'][hop]['term'] = {'k': 'goto', 'target': entry}
             g.j['blocks'][bi]['term'] = {'k': 'goto', 'target': hop}
             nb = Body(g.j, cur.crate)
-            for (cb_block, clo) in g.to_inline:
-                nb = inline_once(nb, cb_block, clo)
+            for (cb_block, clo, cloc_) in g.to_inline:
+                nb = inline_once(nb, cb_block, clo, closure_local=cloc_)
                 used.add(clo.path)
             cur = nb
             did = True
